@@ -154,6 +154,13 @@ func (g *gen) P(format string, a ...interface{}) {
 	g.printer.P(format, a...)
 }
 
+// isInstance returns whether typ is an instance of a generic type.
+// The %#v verb writes such a type with the import paths of its type arguments, which is not how it is written in Go.
+func isInstance(typ types.Type) bool {
+	named, isNamed := typ.(*types.Named)
+	return isNamed && named.TypeArgs().Len() > 0
+}
+
 func isBasicPointer(typ types.Type) bool {
 	p, ok := typ.Underlying().(*types.Pointer)
 	if !ok {
@@ -236,7 +243,7 @@ func (g *gen) genStatement(typ types.Type, this string) error {
 		p.P("} else {")
 		p.In()
 		elmTyp := ttyp.Elem()
-		if _, isBasic := elmTyp.(*types.Basic); isBasic {
+		if _, isBasic := elmTyp.(*types.Basic); isBasic && !isInstance(typ) {
 			p.P("%s.Fprintf(buf, \"return %s\\n\", %s)", g.fmtPkg(), "%#v", this)
 		} else {
 			gotypeStr := g.TypeString(ttyp)
@@ -253,7 +260,7 @@ func (g *gen) genStatement(typ types.Type, this string) error {
 		return nil
 	case *types.Array:
 		elmTyp := ttyp.Elem()
-		if _, isBasic := elmTyp.(*types.Basic); isBasic {
+		if _, isBasic := elmTyp.(*types.Basic); isBasic && !isInstance(typ) {
 			p.P("%s.Fprintf(buf, \"return %s\\n\", %s)", g.fmtPkg(), "%#v", this)
 		} else {
 			gotypeStr := g.TypeString(typ)
@@ -277,7 +284,7 @@ func (g *gen) genStatement(typ types.Type, this string) error {
 		keyTyp := ttyp.Key()
 		_, isBasicElm := elmTyp.(*types.Basic)
 		_, isBasicKey := keyTyp.(*types.Basic)
-		if isBasicElm && isBasicKey {
+		if isBasicElm && isBasicKey && !isInstance(typ) {
 			p.P("%s.Fprintf(buf, \"return %s\\n\", %s)", g.fmtPkg(), "%#v", this)
 		} else if isBasicKey {
 			gotypeStr := g.TypeString(typ)
@@ -329,7 +336,7 @@ func (g *gen) genField(fieldType types.Type, this string) error {
 	case *types.Slice:
 		p.P("if %s != nil {", this)
 		p.In()
-		if _, ok := typ.Elem().(*types.Basic); ok {
+		if _, ok := typ.Elem().(*types.Basic); ok && !isInstance(fieldType) {
 			p.P("%s.Fprintf(buf, \"%s = %s\\n\", %s)", g.fmtPkg(), this, "%#v", this)
 		} else {
 			p.P("%s.Fprintf(buf, \"%s = %s\\n\", %s)", g.fmtPkg(), this, "%s", g.GetFuncName(fieldType)+"("+this+")")
@@ -338,7 +345,7 @@ func (g *gen) genField(fieldType types.Type, this string) error {
 		p.P("}")
 		return nil
 	case *types.Array:
-		if _, ok := typ.Elem().(*types.Basic); ok {
+		if _, ok := typ.Elem().(*types.Basic); ok && !isInstance(fieldType) {
 			p.P("%s.Fprintf(buf, \"%s = %s\\n\", %s)", g.fmtPkg(), this, "%#v", this)
 		} else {
 			p.P("%s.Fprintf(buf, \"%s = %s\\n\", %s)", g.fmtPkg(), this, "%s", g.GetFuncName(fieldType)+"("+this+")")
@@ -351,7 +358,7 @@ func (g *gen) genField(fieldType types.Type, this string) error {
 		keyTyp := typ.Key()
 		_, isBasicElm := elmTyp.(*types.Basic)
 		_, isBasicKey := keyTyp.(*types.Basic)
-		if isBasicElm && isBasicKey {
+		if isBasicElm && isBasicKey && !isInstance(fieldType) {
 			p.P("%s.Fprintf(buf, \"%s = %s\\n\", %s)", g.fmtPkg(), this, "%#v", this)
 		} else {
 			p.P("%s.Fprintf(buf, \"%s = %s\\n\", %s)", g.fmtPkg(), this, "%s", g.GetFuncName(fieldType)+"("+this+")")
